@@ -185,6 +185,32 @@ example :
   · exact ⟨by decide, Or.inr ⟨by decide, by decide, rfl⟩⟩
   · exact C05_key_ok asciiCls T hu ⟨[65, 112, 97, 99, 104, 101, 32, 50], [], false⟩ (by decide) (by decide)
 
+/-- the premises of `C04_in_context_proviso` are satisfiable by a table *with an operator word inside a name*:
+    {mit; gpl alias "gpl or later"}, the text `mit or gpl or later` in the segments mit | or | gpl or later —
+    the scan also reports `gpl` and the second `or`, both inside the third segment -/
+example :
+    let T : Table := [⟨[109, 105, 116], [], false⟩, ⟨[103, 112, 108], [[103, 112, 108, 32, 111, 114, 32, 108, 97, 116, 101, 114]], false⟩]
+    let text : Str := [109, 105, 116, 32, 111, 114, 32, 103, 112, 108, 32, 111, 114, 32, 108, 97, 116, 101, 114]
+    let segs : List (Seg TVal) := [([⟨0, [109, 105, 116], .word⟩], some (.sym ⟨[109, 105, 116], false⟩)), ([⟨4, [111, 114], .word⟩], some (.kw .or)),
+      ([⟨7, [103, 112, 108], .word⟩, ⟨11, [111, 114], .word⟩, ⟨14, [108, 97, 116, 101, 114], .word⟩], some (.sym ⟨[103, 112, 108], false⟩))]
+    ¬ OpWordFree asciiCls T ∧ KwOwned asciiCls T ∧
+    SegsFor asciiCls T [.sym (.lic ⟨[109, 105, 116], false⟩), .or, .sym (.lic ⟨[103, 112, 108], false⟩)] segs ∧
+    segPieces segs = wordPieces asciiCls text ∧
+    (∀ k ∈ (buildTrie asciiCls T).iter asciiCls text true, k.val.isSome = true →
+      ∃ sg ∈ segs, ∃ p ∈ sg.1, ∃ p' ∈ sg.1, k.s = p.start ∧ k.e = p'.stop) := by
+  intro T text segs
+  refine ⟨?_, kwOwned_of_B _ _ (by decide), ?_, by decide, by decide⟩
+  · intro h
+    have := h ([103, 112, 108, 32, 111, 114, 32, 108, 97, 116, 101, 114], .sym ⟨[103, 112, 108], false⟩) (by decide) [111, 114] (by decide) (by decide)
+    revert this; decide
+  · have h := SegsFor.cons (c := asciiCls) (T := T)
+      (SegFor.lic ⟨[109, 105, 116], false⟩ _ (OperandSeg.known [⟨0, [109, 105, 116], .word⟩] (by decide) (ownedV_of_B _ _ _ _ (by decide))))
+      (SegsFor.cons (SegFor.or ⟨4, [111, 114], .word⟩ (by decide))
+        (SegsFor.cons (SegFor.lic ⟨[103, 112, 108], false⟩ _
+          (OperandSeg.known [⟨7, [103, 112, 108], .word⟩, ⟨11, [111, 114], .word⟩, ⟨14, [108, 97, 116, 101, 114], .word⟩] (by decide) (ownedV_of_B _ _ _ _ (by decide))))
+          SegsFor.nil))
+    simpa using h
+
 /-- non-vacuity: `a OR (b OR c)` keeps its nesting through the skeleton -/
 example : BP.parse (BP.toksOf (fun _ => false) (Expr.node .or [.atom 1, .node .or [.atom 2, .atom 3]]))
     = .ok (Expr.node .or [.atom 1, .node .or [.atom 2, .atom 3]]) := by rfl
